@@ -475,8 +475,13 @@ class TestSuiteWriter:
         fixture_source = (
             "@pytest.fixture(autouse=True)\n"
             "def _pynguin_seed_random():\n"
-            f"    random.seed({seed})\n"
-            "    _pynguin_instances = getattr(random.Random.seed, '__pynguin_instances__', None)\n"
+            # Imported locally under a private name: a public name ``random`` of the module
+            # under test (``from random import random``) rebinds the module-level name.
+            "    import random as _pynguin_random\n"
+            f"    _pynguin_random.seed({seed})\n"
+            "    _pynguin_instances = getattr(\n"
+            "        _pynguin_random.Random.seed, '__pynguin_instances__', None\n"
+            "    )\n"
             "    if _pynguin_instances is not None:\n"
             "        for _inst in list(_pynguin_instances):\n"
             f"            _inst.seed({seed})\n"
